@@ -1235,7 +1235,10 @@ impl Gen {
     /// fungibles on both sides to pay the royalties from
     fn script_royalty_overlap(&mut self, o: &Obs, names: &Names) {
         let m = &names.market;
-        let k = names.colls.len().min(9);
+        // small sets mostly; sometimes large ones, so that each side stays at or below 50 % while the two
+        // sides together exceed it (the cap is per side)
+        let big = names.colls.len() >= 20 && self.rng.chance(1, 3);
+        let k = if big { names.colls.len().min(24) } else { names.colls.len().min(9) };
         if k < 4 {
             return;
         }
@@ -1243,14 +1246,17 @@ impl Gen {
         for i in 0..k {
             if self.rng.chance(4, 5) {
                 let payout = self.rng.pick(&PAYOUTS).to_string();
-                let r = *self.rng.pick(&RATES);
+                let r = if big { 300 } else { *self.rng.pick(&RATES) };
                 self.script.push_back(Op::tx(adm, &names.registry, msgs::reg_register(&names.colls[i], &payout, r), vec![]));
             }
         }
         let mut idx: Vec<usize> = (0..k).collect();
         self.rng.shuffle(&mut idx);
-        let ns = self.rng.range(1, 3) as usize;
-        let nb = self.rng.range(2, 4) as usize;
+        let (ns, nb) = if big {
+            (self.rng.range(8, 12) as usize, self.rng.range(8, 12) as usize)
+        } else {
+            (self.rng.range(1, 3) as usize, self.rng.range(2, 4) as usize)
+        };
         let shared = self.rng.range(1, ns.min(nb) as u64) as usize;
         let s_set: Vec<usize> = idx[..ns].to_vec();
         let mut b_set: Vec<usize> = idx[..shared].to_vec();
